@@ -333,7 +333,14 @@ fn feed_fixed_block_size<T: Source, C: Fill>(
             #[cfg(flacenc_verif)]
             crate::verif_hook::point("feed.buf.lock", bufid, 0);
             let mut framebuf_and_ctx = (&mut numbuf.framebuf, &mut context);
-            let read_samples = src.read_samples(block_size, &mut framebuf_and_ctx)?;
+            let read_samples = match src.read_samples(block_size, &mut framebuf_and_ctx) {
+                Ok(n) => n,
+                Err(e) => {
+                    // release the workers before reporting the error.
+                    parbuf.request_stop(workers);
+                    return Err(e);
+                }
+            };
             if read_samples == 0 {
                 break 'feed;
             }
@@ -488,11 +495,22 @@ pub fn encode_with_fixed_block_size<T: Source>(
         .collect();
 
     let src_len_hint = src.len_hint();
-    let context = ParContext::new(Context::new(src.bits_per_sample(), src.channels()));
-    let (feed_stats, context) =
-        feed_fixed_block_size(src, block_size, worker_count, &parbuf, context)?;
+    let mut context = ParContext::new(Context::new(src.bits_per_sample(), src.channels()));
+    let feed_result = feed_fixed_block_size(src, block_size, worker_count, &parbuf, &mut context)
+        .map(|(stats, _)| stats);
+    // Whether feeding succeeded or not, no helper thread may outlive this call.
     let remaining_md5_blocks = context.request_stop();
     let context = context.finalize();
+
+    #[cfg(flacenc_verif)]
+    crate::verif_hook::point("par.join.before", worker_count, 0);
+    for h in join_handles {
+        h.join().expect(panic_msg::THREAD_JOIN_FAILED);
+    }
+    #[cfg(flacenc_verif)]
+    crate::verif_hook::point("par.join.after", worker_count, 0);
+
+    let feed_stats = feed_result?;
 
     info!(
         target: "flacenc::par_run_stat::jsonl",
@@ -507,14 +525,6 @@ pub fn encode_with_fixed_block_size<T: Source>(
         .stream_info_mut()
         .set_md5_digest(&context.md5_digest());
 
-    #[cfg(flacenc_verif)]
-    crate::verif_hook::point("par.join.before", worker_count, 0);
-    for h in join_handles {
-        h.join().expect(panic_msg::THREAD_JOIN_FAILED);
-    }
-
-    #[cfg(flacenc_verif)]
-    crate::verif_hook::point("par.join.after", worker_count, 0);
     destruct_arc(parsink).finalize(|f: Frame| stream.add_frame(f));
 
     // `add_frame` lowers `min_block_size` when the last block is short, but the
